@@ -393,7 +393,10 @@ def body_pop(col: Collector, case):
                 twin[name] = fast_copy(proposed_state._values[name])
         twin.auto_fork_type = s.auto_fork_type
         if case.get("tensor_reads"):
-            _tensor_reads(c, s, [_pick(c["derived"], i) for i in case["mid_reads"]] + ["nll_attach"], "pop")
+            try:
+                _tensor_reads(c, s, [_pick(c["derived"], i) for i in case["mid_reads"]] + ["nll_attach"], "pop")
+            except LeaspyModelInputError:
+                classes.append("pop:evaluation-refused")  # kept (accepted) population value the model refuses to evaluate
         n_agg = _post_history(c, s, twin, case["post"], "pop")
     except Fail as f:
         col.fail("pop-proposal", f.bucket, case, observed=f.observed, expected=f.expected)
